@@ -20,7 +20,7 @@ Rendered(r) ==
 
 TStep ==
   /\ l <= Len(Rec)
-  /\ (R.ev = "reset" /\ R.kind = "parser" /\ R.has_expect /\ R.written) => Rendered(R) = R.input
+  /\ (R.ev = "reset" /\ R.kind = "parser" /\ R.written) => Rendered(R) = R.input
   /\ l' = l + 1
 
 TInit == l = 1
